@@ -40,7 +40,7 @@ type c07Rec struct {
 	Nev     int                `json:"nev"`
 }
 
-const c07Prelude = "type T4 struct{ V int }\nvar sink int\n"
+const c07Prelude = "type T4 struct{ V int }\nvar sink int\nfunc evT(tag string, f int, pc int, x T4) { ev(tag, f, pc, x.V) }\n"
 
 func c07PanicExpr(v int) string {
 	switch v {
@@ -116,6 +116,12 @@ func c07Render(rec *c07Rec, raw []byte) *ProgCase {
 	for i := nf - 1; i >= 0; i-- {
 		ops := rec.Body[fmt.Sprint(i)]
 		fmt.Fprintf(&b, "func %s() (res int) {\n", fn(i))
+		for _, op := range ops {
+			if op.K == "mut" || op.K == "deferval" {
+				b.WriteString("\tvar sv T4\n\t_ = sv\n")
+				break
+			}
+		}
 		terminated := false
 		fmt.Fprintf(&shape, "|f%d:", i)
 		for pc0, op := range ops {
@@ -152,6 +158,11 @@ func c07Render(rec *c07Rec, raw []byte) *ProgCase {
 			case "ret":
 				fmt.Fprintf(&b, "\treturn %d\n", op.V)
 				terminated = pc == len(ops)
+			case "mut":
+				fmt.Fprintf(&b, "\tsv.V++\n")
+			case "deferval":
+				nontrivial = true
+				fmt.Fprintf(&b, "\tdefer evT(\"V\", %d, %d, sv)\n", i, pc)
 			case "bp":
 				fmt.Fprintf(&b, "\t_ = \"break\"\n")
 			case "spin":
@@ -172,6 +183,8 @@ func c07Render(rec *c07Rec, raw []byte) *ProgCase {
 			continue
 		}
 		switch e[0] {
+		case "V":
+			pc.WantEvents = append(pc.WantEvents, fmt.Sprintf(`string:"V" int:%d int:%d int:%d`, num(e[1]), num(e[2]), num(e[3]))+c07Book(e, 4))
 		case "D":
 			pc.WantEvents = append(pc.WantEvents, fmt.Sprintf(`string:"D" int:%d int:%d`, num(e[1]), num(e[2]))+c07Book(e, 3))
 		case "L":
@@ -265,7 +278,7 @@ func c07Collect(c *core.Ctx, o core.TLCOpts, keep func(n int) bool) ([]*ProgCase
 
 func runC07(c *core.Ctx) error {
 	// (M)+(R) bounded-exhaustive: every program with <= MaxTotal operations
-	allOps := `c_Ops == {"L","call","defer","rec","panic","deferrec","deferclo","deferloop","set","ret","spin","deferev"}`
+	allOps := `c_Ops == {"L","call","defer","rec","panic","deferrec","deferclo","deferloop","set","ret","spin","deferev","mut","deferval"}`
 	coreOps := `c_Ops == {"L","call","defer","rec","panic","deferrec","deferev"}`
 	stride := uint64(c.Pick(4, 1))
 	seed := uint64(c.Seed)
@@ -276,6 +289,14 @@ func runC07(c *core.Ctx) error {
 		return err
 	}
 	c.Exhaustive = stride == 1
+	// (M)+(R) bounded-exhaustive: deferred calls whose arguments are evaluated at the defer statement
+	argOps := `c_Ops == {"L","mut","deferval","deferev","panic","deferrec","call"}`
+	args, err := c07Collect(c, core.TLCOpts{Spec: "Defer", MCDefs: argOps, CfgName: "bfs-defer-arguments",
+		Cfg: c07Cfg(2, 4, c.Pick(4, 5), "{1}", 0)}, nil)
+	if err != nil {
+		return err
+	}
+	cases = append(cases, args...)
 	// (R) simulation over the full operation alphabet, deeper programs
 	sim, err := c07Collect(c, core.TLCOpts{Spec: "Defer", MCDefs: allOps, CfgName: "sim-all-ops",
 		Cfg:      c07Cfg(4, 4, 10, "{1,2,3,4}", 0),
